@@ -446,6 +446,32 @@ def gen_program_start_under_load(rng):
     return prog
 
 
+def gen_program_stop_full_queue(rng):
+    """
+    stop() (then a restart) on a pool whose BOUNDED task queue is full while every worker is busy, with an idle
+    timeout far longer than the run: the workers only learn about the stop from the pool itself.  The queue is
+    filled exactly to its capacity (no enqueue ever blocks), the busy workers' gates open right after stop() is called.
+    """
+    maxt = rng.choice([1, 2, 3])
+    mint = rng.randint(0, maxt)
+    qsize = rng.choice([1, 1, 2, 3])
+    prog = {"max": maxt, "min": mint, "timeout": rng.choice([30, None]), "queue_size": qsize,
+            "controller": [["start"]], "enqueuers": []}
+    ops = prog["controller"]
+    for i in range(maxt):
+        ops.append(["enq", "g%d" % i, "gate", i + 1])
+    ops.append(["sleep", 30])                       # every worker has taken its gate task
+    fill = rng.choice([qsize, qsize, max(0, qsize - 1)])
+    for i in range(fill):
+        ops.append(["enq", "q%d" % i, "ret"])
+    ops.append(["stop"])
+    if rng.random() < 0.6:
+        ops.append(["start"])
+        ops.append(["enq", "after", "ret"])
+        ops.append(["wait", "after"])
+    return prog
+
+
 def gen_program_thread_faults(rng):
     """
     A running pool whose next 1-3 worker-thread creations are refused by the operating system while tasks keep
